@@ -23,6 +23,7 @@ RULE = ("crops: image class x dims (2,3,4) x dtype x bounds kind (inside / low s
 ASSUMPTIONS = ["a request whose intersection with the image is empty is outside the judged domain when constraining is on",
                "order 1/3 patches are judged on affine coordinate images in the interior only"]
 DECIDING_TAPS = ["crop", "extract_patches"]
+REPLAY_PATHS = ['menpo/image/test']      # suite replay (thorough tier): the repository's own tests under these monitors
 SHARDS = {"quick": 8, "thorough": 16}
 
 
